@@ -297,15 +297,42 @@ def run_cases(mod, ctx: Ctx, shard: int, nshards: int,
             run_one(mod, ctx, name, idx)
 
 
+class CaseTimeout(Exception):
+    """A single case exceeded its generous wall-clock watchdog: inconclusive."""
+
+
+def _alarm(signum, frame):          # pragma: no cover
+    raise CaseTimeout()
+
+
 def run_one(mod, ctx: Ctx, name: str, idx: int) -> None:
+    import signal
     g = mod.GENS[name]
     ctx.gen, ctx.case = name, idx
     rng = case_rng(ctx.seed, name, idx)
+    limit = float(os.environ.get("VF_CASE_TIMEOUT", "600"))
+    old = None
+    try:
+        old = signal.signal(signal.SIGALRM, _alarm)
+        signal.setitimer(signal.ITIMER_REAL, limit)
+    except (ValueError, AttributeError):      # not in the main thread / no SIGALRM
+        old = None
     try:
         g.fn(ctx, rng, idx)
+    except CaseTimeout:
+        ctx.harness_errors.append("watchdog: gen %s case %d exceeded %.0f s" % (name, idx, limit))
     except Exception:
         ctx.harness_errors.append("gen %s case %d: %s" % (
             name, idx, traceback.format_exc(limit=-5)))
+    finally:
+        if old is not None:
+            for _ in range(3):      # the alarm may fire while it is being disarmed
+                try:
+                    signal.setitimer(signal.ITIMER_REAL, 0)
+                    signal.signal(signal.SIGALRM, old)
+                    break
+                except CaseTimeout:
+                    continue
     ctx.cases_run[name] = ctx.cases_run.get(name, 0) + 1
 
 
